@@ -261,7 +261,13 @@ def _n8_trigger(U):
     # sun_compact first divides out det(U)^(1/n): a single phase phi leaves phases ~ phi / n, which np.isclose(., 1, 1e-6, 1e-6)
     # takes for 1 up to phi ~ 2e-6 n (= the catalogued 1e-5 for n = 5; sizes 6 and 7 reach further)
     hi = max(1e-5, 2.5e-6 * len(np.asarray(U)))
-    return bool(small or np.any((ph > 1e-11) & (ph < hi)))
+    # ... and the same test on what the routine actually works with, U / det(U)^(1/n): a determinant phase of 1e-7 (a block unitary typed
+    # in with 7 digits) turns the exact ones of the identity part into phases of 1e-7 / n (thorough-tier smoke run, replays/C02/N8-*)
+    n = len(np.asarray(U))
+    z2 = (np.asarray(U, complex) * np.exp(-1j * np.angle(np.linalg.det(np.asarray(U, complex))) / n)).ravel()
+    z2 = z2[np.abs(z2) >= 1e-5]
+    ph2 = np.abs(np.angle(z2 ** 4)) / 4 if len(z2) else np.array([])
+    return bool(small or np.any((ph > 1e-11) & (ph < hi)) or np.any((ph2 > 1e-11) & (ph2 < hi)))
 
 
 def check_interf(ctx, case):
